@@ -119,7 +119,8 @@ def rand_type(rng, u, names, depth, pos):
         r = rng.below(10)
         if r < 8:
             return rng.pick(KEY_KINDS)
-        return ('ptr', ('struct', rng.pick(names))) if names else ('i32',)
+        kn = [n for n in names if u.by_name[n].fields or u.by_name[n].holder]   # pointers to zero-size structs are all equal: not usable as distinct keys
+        return ('ptr', ('struct', rng.pick(kn))) if kn else ('i32',)
     r = rng.below(100)
     if r < 35 or depth <= 0:
         return rng.pick(ELEM_SCALARS + [('string',), ('binary',)])
